@@ -37,6 +37,7 @@ from dashlive.server import models
 from dashlive.server.events.factory import EventFactory
 from dashlive.server.routes import routes, Route
 from dashlive.server.options.container import OptionsContainer
+from dashlive.server.options.drm_options import DrmSelection
 from dashlive.server.options.repository import OptionsRepository
 from dashlive.utils.json_object import JsonObject
 from dashlive.utils.timezone import UTC
@@ -85,6 +86,18 @@ class RequestHandlerBase(MethodView):
             return default
         return value.lower() in {"1", "true", "on"}
 
+    @staticmethod
+    def stored_stream_defaults(stream: models.Stream) -> dict:
+        """
+        The option defaults that have been stored for a stream
+        """
+        stream_defaults = {**stream.defaults}
+        if isinstance(stream_defaults.get('drmSelection'), str):
+            # stored in its string form (see EditStreamDefaults)
+            stream_defaults['drmSelection'] = DrmSelection.from_string(
+                stream_defaults['drmSelection'])
+        return stream_defaults
+
     def calculate_options(self,
                           mode: str,
                           args: dict[str, str],
@@ -94,7 +107,7 @@ class RequestHandlerBase(MethodView):
         defaults = OptionsRepository.get_default_options()
         if stream is not None:
             if stream.defaults is not None:
-                defaults = defaults.clone(**stream.defaults)
+                defaults = defaults.clone(**self.stored_stream_defaults(stream))
         if restrictions is not None:
             args = {**args}
             for key, allowed_values in restrictions.items():
